@@ -14,12 +14,12 @@ from .gram import ActSpec, grammar_to_json
 def oracle_mustif(c: Case, tr: Trace) -> Optional[str]:
     mi = set(c.g.mi_msgs) if getattr(c.g, 'mi_rof', None) is None else set(c.g.mi_rof)      # the rules whose failure hook raises
     has_catch = any(nd.kind in ('tcrf', 'tcrn') for nd in c.g.nodes.values())
-    stack = []        # [id, begin byte, max byte]
-    first_exc = None  # (id, begin, max) of the first invocation that ended in an exception
+    stack = []        # [id, begin byte, max byte, id of the last raise hook called directly in this invocation]
+    first_exc = None  # (id, begin, max, own raise) of the first invocation that ended in an exception
     for l in tr.events:
         p = l.split()
         if p[0] == 'E':
-            stack.append([int(p[1]), int(p[4]), int(p[4])])
+            stack.append([int(p[1]), int(p[4]), int(p[4]), None])
         elif p[0] == 'X':
             fr = stack.pop()
             fr[2] = max(fr[2], int(p[3]))
@@ -32,6 +32,8 @@ def oracle_mustif(c: Case, tr: Trace) -> Optional[str]:
         elif p[0] in ('st', 'su', 'fa', 'uw', 'ap', 'a0', 'ra') and stack:
             pos = int(p[2]) if p[0] != 'ap' else int(p[5])
             stack[-1][2] = max(stack[-1][2], pos)
+            if p[0] == 'ra':
+                stack[-1][3] = int(p[1])
     r = tr.result.split()
     if has_catch:
         return None       # which exception is the first one to reach parse() is judged only where nothing can catch or nest it
@@ -46,16 +48,20 @@ def oracle_mustif(c: Case, tr: Trace) -> Optional[str]:
     rid, byte = int(r[6]), int(r[7])
     if first_exc is None:
         return "parse() threw but no invocation ended in an exception"
-    j, b, mx = first_exc
+    j, b, mx, own = first_exc
     nd = c.g.nodes.get(j)
-    if nd is not None and nd.kind == 'must':
-        want = nd.params[0]
-    elif nd is not None and nd.kind == 'raise':
+    # who raised: a must / raise rule blames its sub-rule; a rule with a message blames itself from its own failure hook — which a
+    # must rule with a message does too when its own action vetoes the match
+    if own is not None and own == j and j in mi:
+        want = j
+    elif nd is not None and nd.kind in ('must', 'raise'):
         want = nd.params[0]
     else:
         want = j
         if j not in mi:
             return f"the first invocation that ended in an exception is of rule {j}, which is neither a must/raise rule nor has a message"
+    if own is not None and own != want:
+        return f"the raise hook inside rule {j} was called for rule {own}, expected {want}"
     if rid != want:
         return f"parse_error names rule {rid}; the first failing must/raise/message rule in evaluation order is {want}"
     if not (b <= byte <= mx):
